@@ -229,6 +229,13 @@ pub fn add_noise(rg: &mut Rg, e: &mut EnumSpec) {
     // name then carry the caller's hygiene context, everything else the macro's)
     if (e.macro_args.is_empty() && rg.chance(1, 8)) || (!e.macro_args.is_empty() && rg.chance(1, 3)) {
         e.macro_args.push(("n".to_string(), "ident".to_string(), String::new()));
+    } else if e.macro_args.is_empty() && rg.chance(1, 8) {
+        // ... or the name AND the variant list (AND the enum-level strum attributes) come from the caller, while
+        // the derives sit in the macro body
+        e.macro_args.push(("body".to_string(), "tt".to_string(), String::new()));
+        if rg.chance(1, 2) {
+            e.macro_args.push(("attrs".to_string(), "meta".to_string(), String::new()));
+        }
     }
     // a local item shadowing a prelude name: generated code must not depend on what `Default` means here
     if rg.chance(1, 5) {
@@ -930,6 +937,11 @@ pub fn gen_iter(rg: &mut Rg, cfg: &IterCfg) -> EnumSpec {
     let mut idents: Vec<&str> = IDENTS.to_vec();
     rg.shuffle(&mut idents);
     with_ident_pair(rg, &mut idents);
+    // a raw-identifier variant now and then (its name is `r#type` for every derive that prints names)
+    if rg.chance(1, 10) {
+        let at = rg.below(3).min(idents.len());
+        idents.insert(at, *rg.pick(&["r#type", "r#match", "r#ref"]));
+    }
     let mut stems: Vec<&str> = STEMS.to_vec();
     rg.shuffle(&mut stems);
     let mut si = 0;
@@ -1526,6 +1538,10 @@ pub fn gen_disc(rg: &mut Rg) -> EnumSpec {
         }
         let mut idents: Vec<&str> = IDENTS.iter().copied().filter(|s| s.is_ascii()).collect();
         rg.shuffle(&mut idents);
+        if rg.chance(1, 10) {
+            let at = rg.below(3).min(idents.len());
+            idents.insert(at, *rg.pick(&["r#type", "r#match", "r#ref"]));
+        }
         let mut stems: Vec<&str> = STEMS.iter().copied().filter(|s| s.chars().all(|c| c.is_ascii_alphanumeric() || c == '-' || c == '_')).collect();
         rg.shuffle(&mut stems);
         let pool = [FieldTy::U8, FieldTy::Str, FieldTy::NoDef, FieldTy::NoDef, FieldTy::Bool, FieldTy::VecU8, FieldTy::Pay];
@@ -1773,7 +1789,7 @@ pub fn coreify(e: &mut EnumSpec) {
                         *s = s.chars().filter(|c| c.is_ascii_alphanumeric() || *c == ' ' || *c == '-' || *c == '_').collect();
                     }
                     VAttr::ToString(s) => {
-                        *s = s.chars().filter(|c| c.is_ascii_alphanumeric() || " -_{}:<>^.?#+".contains(*c)).collect();
+                        *s = s.chars().filter(|c| c.is_ascii_alphanumeric() || " -_{}:<>^.?#+$".contains(*c)).collect();
                     }
                     VAttr::Props(ps) => {
                         for (_, pv) in ps.iter_mut() {
@@ -1849,7 +1865,7 @@ pub fn plainify(e: &mut EnumSpec) -> bool {
         *e = b;
         false
     };
-    if e.macro_args.iter().all(|(n, k, _)| n == "n" && k == "ident") {
+    if e.macro_args.iter().all(|(n, k, _)| (n == "n" && k == "ident") || n == "body" || n == "attrs") {
         e.macro_args.clear();
     }
     if e.variants.is_empty() || e.variants.len() > 12 || !e.macro_args.is_empty() || e.base_const.is_some() {
@@ -2036,6 +2052,27 @@ pub fn gen_shape_large(rg: &mut Rg, n: usize) -> EnumSpec {
         if i % 97 == 5 {
             v.kind = Kind::Tuple;
             v.fields = vec![FieldSpec { name: None, ty: FieldTy::U8, default_with: false }];
+        }
+        if dis.contains(&i) {
+            v.groups = disabled_attrs(rg, i);
+        }
+        e.variants.push(v);
+    }
+    e
+}
+
+/// A FromRepr enum with a long run of implicit discriminants (C06)
+pub fn gen_repr_large(rg: &mut Rg, repr: &str, n: usize) -> EnumSpec {
+    let mut e = EnumSpec::new("En");
+    e.derives = vec!["FromRepr".into()];
+    e.repr = Some(repr.to_string());
+    e.repr_int = Some(repr.to_string());
+    let dis: Vec<usize> = (0..3).map(|_| rg.below(n)).collect();
+    let start = rg.range(0, 20) as i128;
+    for i in 0..n {
+        let mut v = VariantSpec::unit(&format!("V{}", i));
+        if i == 0 && start > 0 {
+            v.disc = Some(Disc { text: format!("{}", start), value: start });
         }
         if dis.contains(&i) {
             v.groups = disabled_attrs(rg, i);
